@@ -24,6 +24,7 @@ RULE = (
     "runs (TrainLoss, ValLoss, EpochStop) on a tiny model with non-improving losses. A case = one configuration with all "
     "its histories; non-trivial: >=1 history in which the reference stops; distinct by configuration. evaluations = stop() calls monitored."
 )
+RULE += " Also: special values {0.5, 2, inf, nan} and the fine alphabet {1e-3, 1e-3-1e-11, 1e-3-2e-11, 1e39} in histories one shorter, verbose modes, exact-fit and improving-then-plateau real runs."
 EXHAUSTIVE = {"quick": True, "thorough": True}
 ASSUMPTIONS = ["automaton vmon/ref/misc.py:PatienceAutomaton written from the statement", "losses over {-1,0,1,2} and min_delta in {0,0.5,1,1.5} are exact in every representation"]
 ANCHORS = [
